@@ -87,6 +87,14 @@ static Sc VF_NAN(void) { ghost_nan = 1; return LITf(0, 1); }                    
 Sc pi, PI;
 #define VF_PI_OK (pi == PI)
 
+int __CPROVER_uninterpreted_toint(Sc);
+#define VF_TOINT(x) __CPROVER_uninterpreted_toint(x)   /* int(Scalar): some int determined by the value (rule Vtoint) */
+/* std::vector operator[] (rule Vidx): the index must lie inside the container */
+#ifdef VF_NO_IDX_CHECK
+#define VF_IDX(i, n) (i)
+#else
+#define VF_IDX(i, n) (__CPROVER_assert(0 <= (i) && (i) < (n), "vector index within size()"), (i))
+#endif
 /* contract vocabulary */
 #define REQ(e) __CPROVER_requires(e)
 #define ENS_EQ(e) __CPROVER_ensures(__CPROVER_return_value == (e))
